@@ -126,6 +126,8 @@ var (
 	logoutPartialPin string
 	// the instant the certificate validity is judged at (nil: now); freshness of the response is judged at the real clock
 	logoutCertClock *time.Time
+	// the configured IdP entity ID (default: idpEntity): URN-style and query-distinguished identifiers
+	logoutIDPEntity string
 )
 
 func tp(t time.Time) *time.Time { return &t }
@@ -133,6 +135,9 @@ func tp(t time.Time) *time.Time { return &t }
 func (c *Ctx) runLogout(l lresp, encoding string, delay int64) {
 	cfg := baseCfg()
 	cfg.Delay = delay
+	if logoutIDPEntity != "" {
+		cfg.IDPEntity = logoutIDPEntity
+	}
 	if logoutTrust != nil {
 		cfg.Trust = logoutTrust
 	}
@@ -283,7 +288,10 @@ func (c *Ctx) genC18() {
 		// {correct, wrong, absent} x Destination, Issuer, Status, IssueInstant (guard band: the validator reads the wall clock)
 		// (the SP's own other URLs are wrong destinations for a logout response too)
 		dests := []string{sloURL, "https://evil.example.org/slo", "", sloURL + "/", strings.ToUpper(sloURL), baseCfg().Acs, baseCfg().MetadataURL, sloURL + "?x=1", strings.TrimSuffix(sloURL, "o")}
-		issuers := []*string{sp(idpEntity), sp("https://evil.example.org/idp"), nil, sp(""), sp(idpEntity + "x")}
+		issuers := []*string{sp(idpEntity), sp("https://evil.example.org/idp"), nil, sp(""), sp(idpEntity + "x"),
+			// entity IDs are compared as strings: what a URL library would call "the same URL" is another issuer
+			sp(idpEntity + "?x=1"), sp(idpEntity + "#frag"), sp(idpEntity + "/"), sp("https://IDP.example.com/saml/metadata"), sp("HTTPS://idp.example.com/saml/metadata"),
+			sp("https://idp.example.com:443/saml/metadata"), sp("https://user@idp.example.com/saml/metadata"), sp("https://idp.example.com/saml/%6Detadata")}
 		stats := []string{successSt, "urn:oasis:names:tc:SAML:2.0:status:Responder", "", successSt + "x"}
 		iis := []int64{-1000, -(delay - 5000), -(delay + 5000), -3600000, 3600000, -(delay - 20000)}
 		// single-dimension perturbations, always all of them (every other field correct)
@@ -412,5 +420,18 @@ func (c *Ctx) genC18() {
 		}
 	}
 	logoutCertClock, logoutTrust = nil, nil
+	// IdP entity IDs that are not plain https URLs: URNs, identifiers distinguished by their query or fragment only
+	for _, pair := range [][2]string{{"urn:example:idp:one", "urn:example:idp:two"}, {"urn:example:idp:one", "urn:example:idp:one"},
+		{"https://accounts.example.com/o/saml2?idpid=C01", "https://accounts.example.com/o/saml2?idpid=C02"}, {"https://accounts.example.com/o/saml2?idpid=C01", "https://accounts.example.com/o/saml2"},
+		{"https://idp.example.com/md#a", "https://idp.example.com/md#b"}, {"https://accounts.example.com/o/saml2?idpid=C01", "https://accounts.example.com/o/saml2?idpid=C01"}} {
+		logoutIDPEntity = pair[0]
+		for _, e := range encs {
+			l := base()
+			l.Issuer = sp(pair[1])
+			c.count("c18-entity-id-shape", map[bool]string{true: "same", false: "other"}[pair[0] == pair[1]])
+			c.runLogout(l, e, delay)
+		}
+	}
+	logoutIDPEntity = ""
 	_ = etree.NewDocument
 }
